@@ -17,7 +17,7 @@ EXPLANATION = (
     "discipline for bencode (raw slicing only inside the bounds-checked `slice`; every length-prefixed read goes through it; "
     "decode returns [nil original-data] on any failure; decode-all stops at the nil marker and hands back the remainder)."
 )
-DECIDES = "EDN escape/number/tag table agreement between writer and both readers; bencode bounds-checked reads and incomplete-message protocol; JSON encoder/decoder type tables agree (every domain type has an encoder, every encoder image a decoder, collection codecs recurse with the options)"
+DECIDES = "EDN escape/number/tag table agreement between writer and both readers; EDN token terminators within the Lisp reader's; bencode bounds-checked reads and incomplete-message protocol, dict-by-items and boolean-as-integer encoding; JSON encoder/decoder type tables agree (every domain type has an encoder, every encoder image a decoder, collection codecs recurse with the options)"
 DECLINED = "the text level of JSON (Python's json module writes and parses it); value-level round trips"
 TRUSTED = ["FT-repr: repr(float) uses only digits . - + e (and inf/nan, written separately); repr(int) only digits and -", "bytes.index raises ValueError when the byte is absent"]
 ASSUMPTIONS = []
